@@ -11,7 +11,7 @@ INFO = {
                "condition: a stage that drops the decision makes jawk read an endless input forever. Input is pulled "
                "one byte at a time through io::Bytes (no whole-file or block read), so what is read past the last "
                "needed value is bounded by the reader's look-ahead. The limiter is built from cli.skip / cli.take as they are (take is an Option, so --take 0 is a limit of zero rows).",
-    "not_decided": "The limiter's Break timing beyond the explored parameters (skip, take <= 3; streams of 9 rows) and "
+    "not_decided": "The limiter's Break timing beyond the explored parameters (skip, take <= 6; streams of 16 rows; <= 12 and 40 rows in the thorough tier) and "
                    "the exact number of bytes read past the last value (one byte of look-ahead by construction of Reader).",
     "trusted": ["sa/tables/pipeline_order.toml (which stage classes may precede the limiter)"],
 }
